@@ -49,6 +49,45 @@ def dynsyms(path):
     return defs
 
 
+# --enable-obsolete-api=<flavour>: the compat versions each distribution's old binaries bound (libcrypt.map.in tags,
+# versions below the x86-64 floor GLIBC_2.2.5 raised to it).  Written down from the released ABI, not derived from
+# the tree.
+ABI_COMMON = [("crypt", "@@", "XCRYPT_2.0"), ("crypt_r", "@@", "XCRYPT_2.0"), ("crypt_rn", "@@", "XCRYPT_2.0"),
+              ("crypt_ra", "@@", "XCRYPT_2.0"), ("crypt_gensalt", "@@", "XCRYPT_2.0"),
+              ("crypt_gensalt_rn", "@@", "XCRYPT_2.0"), ("crypt_gensalt_ra", "@@", "XCRYPT_2.0"),
+              ("crypt_checksalt", "@@", "XCRYPT_4.3"), ("crypt_preferred_method", "@@", "XCRYPT_4.4"),
+              ("crypt", "@", "GLIBC_2.2.5"), ("crypt_r", "@", "GLIBC_2.2.5"), ("encrypt", "@", "GLIBC_2.2.5"),
+              ("encrypt_r", "@", "GLIBC_2.2.5"), ("setkey", "@", "GLIBC_2.2.5"), ("setkey_r", "@", "GLIBC_2.2.5"),
+              ("fcrypt", "@", "GLIBC_2.2.5"), ("crypt_gensalt_r", "@", "XCRYPT_2.0"), ("xcrypt", "@", "XCRYPT_2.0"),
+              ("xcrypt_r", "@", "XCRYPT_2.0"), ("xcrypt_gensalt", "@", "XCRYPT_2.0"), ("xcrypt_gensalt_r", "@", "XCRYPT_2.0")]
+ABI_OW = [(f, "@", "GLIBC_2.2.5") for f in ("crypt_rn", "crypt_ra", "crypt_gensalt", "crypt_gensalt_rn", "crypt_gensalt_ra")]
+ABI_SUSE = [(f, "@", "OW_CRYPT_1.0") for f in ("crypt_gensalt", "crypt_gensalt_rn", "crypt_gensalt_ra")]
+ABI_FLAVOURS = {"glibc": ABI_COMMON, "owl": ABI_COMMON + ABI_OW, "alt": ABI_COMMON + ABI_OW,
+                "suse": ABI_COMMON + ABI_OW + ABI_SUSE}
+
+
+def build_abi(abi):
+    """shared library as configure --enable-obsolete-api=<abi> builds it -> (abi, {(sym, ver): @|@@} or None, error)"""
+    tree = build.Tree()
+    d = tree.scratch("abi-" + abi)
+    try:
+        cc, cflags, ldflags = build.FLAVOURS["so"]
+        gd = build.gen_headers(os.path.join(d, "gen"), compat_abi=abi)
+        objs = build.compile_objects(os.path.join(d, "obj"), gd, cc, cflags)
+        lib = os.path.join(d, "libcrypt.so.1")
+        p = subprocess.run("%s -shared %s %s -Wl,--version-script=%s -Wl,-soname,libcrypt.so.1 -Wl,-z,defs -Wl,-z,text "
+                           "-o %s %s" % (cc, cflags, " ".join(objs), os.path.join(gd, "libcrypt.map"), lib, ldflags),
+                           shell=True, stdout=subprocess.PIPE, stderr=subprocess.STDOUT, text=True)
+        if p.returncode != 0:
+            return abi, None, p.stdout[-600:]
+        return abi, dynsyms(lib), ""
+    except build.BuildError as e:
+        return abi, None, str(e)[-600:]
+    finally:
+        import shutil
+        shutil.rmtree(d, ignore_errors=True)
+
+
 def client_workload(seed, tier):
     lines = []
     n = 40 if tier == "quick" else 700
@@ -76,6 +115,11 @@ def client_workload(seed, tier):
                 lines.append("g %s %d %s" % (pool.hx(pre), cnt, facts.rbytes_pattern("rnd", nr, cnt).hex()))
     for i in range(50 if tier == "quick" else 2000):
         lines.append("d %016x %016x" % (rng.getrandbits(64), rng.getrandbits(64)))
+    hs = [b"ab", b"$1$saltsalt", b"_J9..rasm", b"$6$rounds=1000$xy", b"$y$j5.$c2FsdHNhbHQ", b"*0", b"$9$unknown", b"ab:cd",
+          b"$2b$04$abcdefghijklmnopqrstuu"]
+    for i in range(30 if tier == "quick" else 1000):
+        lines.append("h %016x %016x %s %s" % (rng.getrandbits(64), rng.getrandbits(64), pool.hx(b"phrase%d" % i),
+                                            pool.hx(hs[i % len(hs)])))
     lines.append("p")
     return lines
 
@@ -142,6 +186,22 @@ def run(tier):
         elif cur[(sym, ver)] != dflt:
             acc.violation("%s/symbol-default-changed/%s@%s" % (PID, sym, ver),
                           "%s%s%s became %s%s%s" % (sym, dflt, ver, sym, cur[(sym, ver)], ver), None)
+    # (2c) the distribution flavours of --enable-obsolete-api
+    for abi, syms, err in pool.pmap(build_abi, sorted(ABI_FLAVOURS)):
+        if syms is None:
+            acc.violation("%s/abi-flavour-does-not-build/%s" % (PID, abi), "--enable-obsolete-api=%s: %s" % (abi, err), None)
+            continue
+        for sym, dflt, ver in ABI_FLAVOURS[abi]:
+            acc.count("evaluations")
+            acc.count("flavour_pairs")
+            acc.cls(("flavour", abi, sym, ver))
+            if (sym, ver) not in syms:
+                acc.violation("%s/symbol-missing/%s/%s@%s" % (PID, abi, sym, ver),
+                              "--enable-obsolete-api=%s builds of libxcrypt 4.4.x export %s%s%s, the fresh one does not" % (
+                                  abi, sym, dflt, ver), None)
+            elif syms[(sym, ver)] != dflt:
+                acc.violation("%s/symbol-default-changed/%s/%s@%s" % (PID, abi, sym, ver),
+                              "%s%s%s became %s%s%s" % (sym, dflt, ver, sym, syms[(sym, ver)], ver), None)
     # (3) old client
     exe = build.sys_program("vabi.c", "vabi-old-client", libs="-L/lib/x86_64-linux-gnu -l:libcrypt.so.1")
     lines = client_workload(run_.seed, tier)
@@ -160,6 +220,8 @@ def run(tier):
         "layout_keys_compared": len(set(new) | set(EXPECT)),
         "symbol_version_pairs_checked": len(rel),
         "golden_symbol_version_pairs_checked": len(gold),
+        "obsolete_api_flavours_built": sorted(ABI_FLAVOURS),
+        "flavour_symbol_version_pairs_checked": int(a.n.get("flavour_pairs", 0)),
         "symbol_version_pairs": sorted("%s%s%s" % (s, d, v) for (s, v), d in rel.items()),
         "client_transcript_lines_compared": int(a.n.get("lines_compared", 0)),
         "client_requests": len(lines),
